@@ -72,6 +72,9 @@ pub struct Behavior {
     /// stdout/stderr open for this long
     #[serde(default, skip_serializing_if = "is_zero")]
     pub linger_ms: u64,
+    /// bytes written to stdout before anything else (before the barrier / gate)
+    #[serde(default, skip_serializing_if = "is_zero")]
+    pub pre_out_bytes: u64,
     /// (path relative to the repository, mode): permission changes the helper makes before it exits
     #[serde(default, skip_serializing_if = "Vec::is_empty")]
     pub chmod: Vec<(String, u32)>,
@@ -340,6 +343,9 @@ impl Env {
             }
             if b.linger_ms > 0 {
                 m.insert("linger_ms".into(), json!(b.linger_ms));
+            }
+            if b.pre_out_bytes > 0 {
+                m.insert("pre_out_bytes".into(), json!(b.pre_out_bytes));
             }
             if !b.chmod.is_empty() {
                 let v: Vec<Value> = b.chmod.iter().map(|(p, m)| json!([self.path(p).display().to_string(), m])).collect();
